@@ -39,7 +39,7 @@ for p in props:
     })
 man = {
     "version": 1,
-    "setup_cmd": "cd /verif && CARGO_NET_OFFLINE=true cargo build --release --offline --manifest-path engine/mirfacts/Cargo.toml && python3 engine/grinlint/extract.py debug",
+    "setup_cmd": "cd /verif/engine/mirfacts && CARGO_NET_OFFLINE=true cargo +nightly build --release --offline && cd /verif && python3 engine/grinlint/extract.py debug",
     "hooks": {
         "guard": "mimblewimble_grin_verif",
         "enable": "none needed: the checks are static (cargo +nightly check with a rustc_private fact-extracting wrapper); no hook code exists in /repo",
